@@ -27,6 +27,8 @@ pub struct FileE2e;
 #[derive(Clone, Debug)]
 enum Step {
     Emit(usize),
+    /// emit events first..first+n back to back, then sample the channel metrics
+    Burst(usize, usize),
     Flush(u64),
     Sleep(u64),
 }
@@ -67,16 +69,21 @@ impl Engine for FileE2e {
     }
 
     fn run(&self, ch: &mut Choices, ctx: &RunCtx) -> Outcome {
-        let two_sets = ch.chance(1, 3);
+        // overflow mode: stall the worker for an hour and push more than the channel's 10 000-item capacity through
+        let overflow = ch.chance(1, 150);
+        let two_sets = !overflow && ch.chance(1, 3);
         let n_events = 1 + ch.choose(if ctx.thorough { 24 } else { 12 }) as usize;
         let fault_budget = match ch.weighted(&[5, 3, 2]) {
             0 => 0,
             1 => 1 + ch.choose(2),
             _ => 3 + ch.choose(3),
         };
-        let stall_mode = ch.weighted(&[5, 3, 2]); // 0 none, 1 short stalls, 2 one very long stall
+        let stall_mode = if overflow { 2 } else { ch.weighted(&[5, 3, 2]) }; // 0 none, 1 short stalls, 2 one very long stall
+        let fault_budget = if overflow { 0 } else { fault_budget };
         let reuse = ch.chance(1, 2);
         let max_size = *ch.pick(&[1usize << 30, 300, 120]);
+        // (overflow mode: one big file, so retention never deletes what the oracle looks for)
+        let max_size = if overflow { 1usize << 30 } else { max_size };
         let mut steps = Vec::new();
         for i in 0..n_events {
             steps.push(Step::Emit(i));
@@ -86,7 +93,11 @@ impl Engine for FileE2e {
                 _ => steps.push(Step::Flush(*ch.pick(&[0u64, 5, 400, 60_000, 7_200_000]))),
             }
         }
-        let final_flush = !ch.chance(1, 4);
+        let final_flush = overflow || !ch.chance(1, 4);
+        let burst = 9_990 + ch.choose(40) as usize;
+        if overflow {
+            steps = vec![Step::Emit(0), Step::Sleep(10), Step::Burst(1, burst), Step::Sleep(1)];
+        }
         let rng_seed = ch.choose(1 << 30) as u64;
 
         let sched = Sched::new(std::mem::replace(ch, Choices::from_record(&[])), ctx.want_trace, 200_000);
@@ -177,6 +188,8 @@ impl Engine for FileE2e {
             emitted: Vec<(usize, Duration)>,
             // (#emitted before the call, returned at, timeout ms, result, durable markers at return in set a / b)
             flushes: Vec<(usize, Duration, u64, bool, BTreeSet<String>, BTreeSet<String>)>,
+            // after a burst: (queue_length, queue_full_truncated) as sampled from the file set's metrics
+            after_burst: Option<(Option<u64>, Option<u64>)>,
         }
         let clog = Arc::new(Mutex::new(ClientLog::default()));
         let durable = |fs: &SimFs| -> BTreeSet<String> {
@@ -203,6 +216,7 @@ impl Engine for FileE2e {
                             }
                             s
                         };
+                        let metrics = if overflow { Some(set_a.metric_source()) } else { None };
                         let emitter: Box<dyn emit::emitter::ErasedEmitter + Send + Sync> = match set_b {
                             Some(b) => Box::new(set_a.and_to(b)),
                             None => Box::new(set_a),
@@ -238,6 +252,41 @@ impl Engine for FileE2e {
                                     emitted += 1;
                                     clog.lock().unwrap().emitted.push((i, sc.now()));
                                     sc.log(format!("emitted {marker}"));
+                                }
+                                Step::Burst(first, n) => {
+                                    let ts = emit::Timestamp::from_unix(*clk.0.lock().unwrap()).unwrap();
+                                    sc.set_nonblocking(Some("FileSet::emit"));
+                                    for i in first..first + n {
+                                        let marker = format!("MK{:06}KM", i + 1);
+                                        let props = [("marker", emit::Value::from(marker.as_str()))];
+                                        let evt = emit::Event::new(
+                                            emit::path!("sim::file"),
+                                            emit::Template::literal("burst"),
+                                            emit::Extent::point(ts),
+                                            &props[..],
+                                        );
+                                        emitter.emit(&evt);
+                                        emitted += 1;
+                                        clog.lock().unwrap().emitted.push((i, sc.now()));
+                                    }
+                                    sc.set_nonblocking(None);
+                                    sc.log(format!("burst of {n} events emitted"));
+                                    if let Some(m) = &metrics {
+                                        use emit::metric::Source as _;
+                                        let got: Mutex<(Option<u64>, Option<u64>)> = Mutex::new((None, None));
+                                        m.sample_metrics(emit::metric::sampler::from_fn(|metric| {
+                                            let v = metric.value().to_string().parse::<u64>().ok();
+                                            if metric.name() == "file_queue_length" {
+                                                got.lock().unwrap().0 = v;
+                                            }
+                                            if metric.name() == "file_queue_full_truncated" {
+                                                got.lock().unwrap().1 = v;
+                                            }
+                                        }));
+                                        let g = *got.lock().unwrap();
+                                        sc.log(format!("after burst: queue_length={:?} queue_full_truncated={:?}", g.0, g.1));
+                                        clog.lock().unwrap().after_burst = Some(g);
+                                    }
                                 }
                                 Step::Sleep(ms) => {
                                     sc.sleep(Duration::from_millis(ms));
@@ -301,7 +350,7 @@ impl Engine for FileE2e {
             let all: Vec<String> = cl.emitted.iter().map(|(i, _)| format!("MK{:06}KM", i + 1)).collect();
             // C07: flush true => everything emitted before it is written AND synced, in every set
             for (n_before, at, ms, ok, da, db) in &cl.flushes {
-                if !*ok {
+                if !*ok || cl.after_burst.is_some() {
                     continue;
                 }
                 out.probe("flush_returned_true");
@@ -331,7 +380,43 @@ impl Engine for FileE2e {
             };
             let (fa, fb) = (written(&fs_a), written(&fs_b));
             let _ = &durable;
+            let mut exempt: BTreeSet<String> = BTreeSet::new();
+            if let Some((ql, tr)) = cl.after_burst {
+                out.probe("channel_overflow_mode");
+                let (ql, tr) = (ql.unwrap_or(u64::MAX), tr.unwrap_or(u64::MAX));
+                let n = all.len() as u64;
+                if ql > 10_000 {
+                    out.violate("C09", "capacity_exceeded", format!("the file set's channel holds {ql} events, capacity is 10 000"));
+                }
+                // the last `ql` emitted events are the queue: they must all come out; older ones may only be missing
+                // if a truncation was counted, and at most capacity per truncation
+                let missing: Vec<&String> = all.iter().filter(|m| !fa.contains(*m)).collect();
+                let queue_start = (n.saturating_sub(ql)) as usize;
+                for m in &missing {
+                    let idx = all.iter().position(|x| x == *m).unwrap();
+                    if idx >= queue_start {
+                        out.violate(
+                            "C09",
+                            "queued_event_lost",
+                            format!("event {m} was among the {ql} events pending after the burst but never reached a file ({tr} truncations counted)"),
+                        );
+                    }
+                    exempt.insert((*m).clone());
+                }
+                if tr == 0 && !missing.is_empty() {
+                    out.violate("C09", "uncounted_drop", format!("{} events are missing although queue_full_truncated is 0", missing.len()));
+                }
+                if missing.len() as u64 > tr.saturating_mul(10_000) {
+                    out.violate("C09", "uncounted_drop", format!("{} events are missing, {tr} truncations of at most 10 000 were counted", missing.len()));
+                }
+                if tr > 0 {
+                    out.probe("channel_overflow_truncated");
+                }
+            }
             for m in &all {
+                if exempt.contains(m) {
+                    continue;
+                }
                 if !fa.contains(m) || (two_sets && !fb.contains(m)) {
                     out.violate(
                         "C08",
